@@ -58,6 +58,12 @@ uint8_t TECMP::LinPayload::getCrc() const
         return 0;
     return *(payloadData.data() + sizeof(Header) + getHeader()->getDataLength());
 }
+bool TECMP::LinPayload::isValidPayload(const uint8_t* data, const size_t size)
+{
+    auto header = reinterpret_cast<const Header*>(data);
+    return (size >= sizeof(Header) && header->getDataLength() <= size - sizeof(Header));
+}
+
 const TECMP::LinPayload::Header* TECMP::LinPayload::getHeader() const
 {
     return reinterpret_cast<const Header*>(payloadData.data());
